@@ -31,13 +31,15 @@ SHIPPED_CALLOUT = ('o',)
 def short(site, key):
     """'udparsers.x1111.x1111' -> 'x1111'; 'calloutparsers.xcallouts.xcallouts' -> 'x' (the names the model's environment uses)"""
     pkg = PKG[site]
-    rest = key[len(pkg) + 1:]
+    rest = key[len(pkg) + 1:] if isinstance(key, str) else ''
     name = rest[:(len(rest) - 1) // 2]
-    if not key.startswith(pkg + '.') or rest != name + '.' + name:
-        raise ValueError('unexpected table key %r' % (key,))
+    # a key of another shape is something the code under test did (an observation, compared with the model like any other name):
+    # it is handed on under a name no module of the model's environment has
+    if not isinstance(key, str) or not key.startswith(pkg + '.') or rest != name + '.' + name:
+        return '?%s' % (key,)
     if site == 'callout':
         if not name.endswith('callouts'):
-            raise ValueError('unexpected callout table key %r' % (key,))
+            return '?%s' % (key,)
         name = name[:-len('callouts')]
     return name
 
@@ -79,16 +81,29 @@ class ImportShim:
 
 
 class Watch:
+    # the process-wide state the model describes (PelModel/Plugins.lean): module -> names
+    STATE = (('parse_user_data', ('userDataParsers',)), ('src', ('srcParsers', 'calloutParsers')), ('osrc', ('osrcParsers',)),
+             ('comp_id', ('componentIDs', 'attemptedToParseCompIDs')))
+
     def __init__(self):
         self.log = []
         self.mods = None
+        self.available = True     # False: the code under test no longer has the state variables the model describes
+        self.why = None
 
     def install(self):
         """after PluginEnv.install() (which re-executes comp_id and clears the tables)"""
         from pel.peltool import parse_user_data, src, comp_id
         osrc = importlib.import_module('srcparsers.osrc.osrc')
-        self.mods = (parse_user_data, src, comp_id, osrc)
         self.log = []
+        have = {'parse_user_data': parse_user_data, 'src': src, 'osrc': osrc, 'comp_id': comp_id}
+        missing = ['%s.%s' % (m, n) for m, names in self.STATE for n in names
+                   if not hasattr(have[m], n) or (n != 'attemptedToParseCompIDs' and not isinstance(getattr(have[m], n), dict))]
+        if missing:
+            self.available = False
+            self.why = 'not there (or not a dict): ' + ', '.join(missing)
+            return self
+        self.mods = (parse_user_data, src, comp_id, osrc)
         parse_user_data.userDataParsers = LogDict('ud', self.log, parse_user_data.userDataParsers)
         src.srcParsers = LogDict('src', self.log, src.srcParsers)
         src.calloutParsers = LogDict('callout', self.log, src.calloutParsers)
@@ -116,6 +131,8 @@ class Watch:
 
     def rewatch_comp_ids(self):
         """after comp_id was re-executed (apel.reset_comp_ids)"""
+        if not self.mods:
+            return
         comp_id = self.mods[2]
         comp_id.componentIDs = CompDict(self.log, comp_id.componentIDs)
 
@@ -125,6 +142,8 @@ class Watch:
         return ev
 
     def tables(self):
+        if not self.mods:
+            return None
         parse_user_data, src, comp_id, osrc = self.mods
         out = {}
         for site, d in (('ud', parse_user_data.userDataParsers), ('src', src.srcParsers), ('callout', src.calloutParsers),
@@ -135,6 +154,8 @@ class Watch:
         return out
 
     def entries(self):
+        if not self.mods:
+            return
         parse_user_data, src, comp_id, osrc = self.mods
         for site, d in (('ud', parse_user_data.userDataParsers), ('src', src.srcParsers), ('callout', src.calloutParsers),
                         ('osrc', osrc.osrcParsers)):
